@@ -13,6 +13,7 @@ import os
 import random
 import re
 import signal
+import shutil
 import subprocess
 import sys
 import time
@@ -230,10 +231,11 @@ def check_props_file(pid):
 def run_coq_cases(pid, header, check_fun, literals, shard_bytes=350_000, timeout=900):
     """Evaluate [check_fun] on every literal inside Coq.  Returns list of bit-strings
     (one per case, None where evaluation failed) and a log."""
-    d = os.path.join(GEN, pid)
+    # one scratch directory per run: concurrent runs of the same property must not wipe each other's shards
+    d = os.path.join(GEN, pid, f"run_{os.getpid()}")
+    if os.path.isdir(d):
+        shutil.rmtree(d)
     os.makedirs(d, exist_ok=True)
-    for f in os.listdir(d):
-        os.remove(os.path.join(d, f))
     shards, cur, size = [], [], 0
     for idx, lit in enumerate(literals):
         if lit is None:
@@ -284,6 +286,7 @@ def run_coq_cases(pid, header, check_fun, literals, shard_bytes=350_000, timeout
             continue
         for (idx, _), bits in zip(sh, parts):
             results[idx] = bits
+    shutil.rmtree(d, ignore_errors=True)
     return results, "\n".join(log)
 
 
